@@ -38,6 +38,20 @@ def gen_union_case(rng):
     return dict(spec=spec, options=kw, value=v)
 
 
+def gen_xor_case(rng):
+    """exclusive-or of three or four leaves: the exact-class shortcut has to win over two other accepting arguments"""
+    leaves = [("leaf", x) for x in rng.sample(decl.LEAVES, rng.randint(3, 4))]
+    spec = ("logic", "^", leaves)
+    kw = {}
+    if rng.random() < 0.25:
+        kw["no_data_loss"] = True
+    if rng.random() < 0.15:
+        kw["collect_errors"] = True
+    k = rng.random()
+    v = decl.valid_value(rng, spec) if k < 0.6 else (gen.scalar(rng) if k < 0.9 else rng.choice([None, "null", b"5", "true", "", [1]]))
+    return dict(spec=spec, options=kw, value=v)
+
+
 RULE_LEAVES = ["digits", "posint", "month", "shortstr", "laxint", "enum_ab", "const5", "bfloat"]
 RULE_UNION_VALUES = [12.0, " 12 ", "12", 12, "123", 123, 5, "5", 5.0, 7.5, "7.5", "a", "ab", "abcd", 0, "0", 3, 11, "11", 99.0, 100,
                      True, b"12", "1e1", Decimal("12"), Decimal("5.0"), [5], ["12"]]
